@@ -329,7 +329,7 @@ func patchUpgradeVersion(state []byte) []byte {
 func runCase(idx int, seed uint64, f Features) Case {
 	r := hx.NewRng(seed)
 	cs := Case{Index: idx, Seed: seed, Features: f}
-	c := abci.NewChain(abci.Config{Accounts: 6, Validators: f.Validators, Seed: seed})
+	c := NewOriginal(seed, f)
 	w := Populate(c, f, r)
 	cs.Steps = w.Log
 	cs.Height = c.Height
@@ -421,7 +421,7 @@ func runCase(idx int, seed uint64, f Features) Case {
 			continue
 		}
 		run := SchedRun{Schedule: sc}
-		a := abci.NewChain(abci.Config{Accounts: 6, Validators: f.Validators, Seed: seed})
+		a := NewOriginal(seed, f)
 		Populate(a, f, hx.NewRng(seed))
 		// the replay must reproduce the exported state (custody records are excluded: their protobuf
 		// encoding marshals a Go map in random order, a C01 finding)
